@@ -54,8 +54,92 @@ func sameErr(a, b error) bool {
 	return a == b || a.Error() == b.Error()
 }
 
-// wtTotality runs one case on the real Conn and returns oracle failures.
+// wtTotality runs one case on the real Conn and returns oracle failures. Cases of the
+// ReadMessage api are run twice: through NextReader + ReadAll, and through the real
+// Conn.ReadMessage (its own allocation and error path).
 func wtTotality(k wtTotCase) (fails []string, outcome string) {
+	fails, outcome = wtTotalityReader(k)
+	if k.api == "ReadMessage" && k.consume == "all" {
+		fails = append(fails, wtTotalityReadMessage(k)...)
+	}
+	return fails, outcome
+}
+
+// wtTotalityReadMessage drives Conn.ReadMessage until it fails: complete frames are returned
+// whole, a failing call returns no more payload than the stream supplied for that frame (and
+// only bytes of it), the limit is enforced, the failure is repeated by every later call.
+func wtTotalityReadMessage(k wtTotCase) (fails []string) {
+	ref := wtDecode(k.stream)
+	fs := newFakeStream(k.stream)
+	fs.failAt, fs.failErr, fs.chunk = k.failAt, errInjected, k.chunk
+	fs.eofWithData = k.eofWith
+	sess := newFakeSession()
+	c := wt.NewConn(sess.S, fs, true, k.rb, 0, nil, nil, nil)
+	c.SetReadLimit(k.limit)
+	cls := fmt.Sprintf("[api=ReadMessage limit%s fault=%v]", map[bool]string{true: ">0", false: "=0"}[k.limit > 0], k.failAt >= 0)
+	fail := func(kind, format string, a ...any) {
+		fails = append(fails, fmt.Sprintf("%s%s: %s (%s)", kind, cls, fmt.Sprintf(format, a...), k))
+	}
+	defer func() {
+		if r := recover(); r != nil {
+			fail("reader-panic", "%v", r)
+		}
+	}()
+	var firstErr error
+	idx := 0
+	for ; idx < 1<<16; idx++ {
+		mt, p, err := c.ReadMessage()
+		var payload []byte
+		var declared uint64
+		complete := false
+		switch {
+		case idx < len(ref.Msgs):
+			payload, declared, complete = ref.Msgs[idx].Data, ref.Declared[idx], true
+		case ref.Tail == "payload":
+			payload, declared = ref.TailHave, ref.TailDecl
+		}
+		if err != nil {
+			firstErr = err
+			if len(p) > len(payload) || string(p) != string(payload[:min(len(p), len(payload))]) {
+				fail("bytes-not-from-stream", "failing ReadMessage #%d (%v) returned %d payload bytes, the stream supplied %d of the %d declared", idx+1, err, len(p), len(payload), declared)
+			}
+			if complete && k.failAt < 0 && !(k.limit > 0 && declared > uint64(k.limit)) && declared < 1<<63 {
+				fail("message-withheld", "frame #%d (declared %d, limit %d) is complete in the stream but ReadMessage failed with %v", idx+1, declared, k.limit, err)
+			}
+			break
+		}
+		if !complete {
+			if k.failAt < 0 {
+				fail("truncated-as-complete", "ReadMessage #%d reported a complete message of %d bytes, the stream holds %d complete frames (tail %s, %d of %d bytes)", idx+1, len(p), len(ref.Msgs), ref.Tail, len(payload), declared)
+			}
+			return fails
+		}
+		if k.limit > 0 && declared > uint64(k.limit) {
+			fail("limit-not-enforced", "message #%d of declared length %d returned by ReadMessage with read limit %d", idx+1, declared, k.limit)
+		}
+		if (mt == wt.BinaryMessage) != ref.Msgs[idx].Binary || string(p) != string(payload) {
+			fail("message-bytes", "ReadMessage #%d returned type %d and %d bytes, the frame is binary=%v with %d bytes", idx+1, mt, len(p), ref.Msgs[idx].Binary, len(payload))
+		}
+	}
+	if firstErr == nil {
+		fail("no-termination", "ReadMessage did not report an error after %d messages", idx)
+		return fails
+	}
+	for i := 0; i < 3; i++ {
+		_, p2, e2 := c.ReadMessage()
+		if e2 == nil || len(p2) != 0 {
+			fail("not-sticky", "ReadMessage call %d after the failure %v returned err=%v and %d bytes", i+1, firstErr, e2, len(p2))
+			break
+		}
+		if !sameErr(e2, firstErr) && !(isUnexpectedEnd(e2) && isUnexpectedEnd(firstErr)) {
+			fail("not-sticky", "ReadMessage call %d after the failure reported %v, the first failure was %v", i+1, e2, firstErr)
+			break
+		}
+	}
+	return fails
+}
+
+func wtTotalityReader(k wtTotCase) (fails []string, outcome string) {
 	ref := wtDecode(k.stream)
 	fs := newFakeStream(k.stream)
 	fs.failAt, fs.failErr, fs.chunk = k.failAt, errInjected, k.chunk
@@ -283,6 +367,11 @@ func registerC15() {
 							f, o := wtTotality(k)
 							outcomes["fault "+o]++
 							fails = append(fails, f...)
+						}
+						// the same fault under the real ReadMessage, with and without a read limit
+						for _, lim := range []int64{0, 65536} {
+							n++
+							fails = append(fails, wtTotalityReadMessage(wtTotCase{stream: stream, limit: lim, consume: "all", failAt: failAt, api: "ReadMessage", chunk: chunk, rb: 16})...)
 						}
 					}
 				}
